@@ -35,6 +35,10 @@ type HistCfg struct {
 	// non-initial state: consumers subscribed and ready, a second channel, a backlog ...);
 	// they do not count towards the depth. MaxMsgs counts publishes of the explored part only.
 	Pre []string `json:"pre,omitempty"`
+	// TightMax: max-msg-size equals the length of every body published (2 bytes), so each
+	// message is a maximum-size message on every path it takes (memory, disk overflow,
+	// requeue, flush at shutdown): size limits that disagree between sites show up as losses.
+	TightMax bool `json:"tightmax,omitempty"`
 }
 
 func (c HistCfg) String() string {
@@ -42,7 +46,17 @@ func (c HistCfg) String() string {
 	if len(c.Pre) > 0 {
 		s += "/pre=" + strings.Join(c.Pre, ",")
 	}
+	if c.TightMax {
+		s += "/tightmax"
+	}
 	return s
+}
+
+func (c HistCfg) mod() func(*Options) {
+	if !c.TightMax {
+		return nil
+	}
+	return func(o *Options) { o.MaxMsgSize = 2 }
 }
 
 type HistRes struct {
@@ -1104,7 +1118,7 @@ func (h *hworld) Drain() {
 func newHWorld(cfg HistCfg, dir string) (*hworld, string) {
 	h := &hworld{cfg: cfg, chans: map[string]*lChan{"c": {name: "c", msgs: map[string]*lMsg{}}, "d": {name: "d", msgs: map[string]*lMsg{}}},
 		cons: map[string]*lCons{}, byID: map[string]string{}, idOf: map[string]string{}, tsOf: map[string]int64{}, pubAt: map[string][2]int64{}}
-	w, err := NewWorld(dir, WOpts{MemQ: cfg.MemQ, MaxBytesPerFile: cfg.MaxBytes, Verbose: cfg.Trace})
+	w, err := NewWorld(dir, WOpts{MemQ: cfg.MemQ, MaxBytesPerFile: cfg.MaxBytes, Verbose: cfg.Trace, Mod: cfg.mod()})
 	if err != nil {
 		return nil, err.Error()
 	}
@@ -1161,7 +1175,7 @@ func (h *hworld) restart() {
 		}
 		c.connected = false
 	}
-	w2, err := NewWorld(old.Dir, WOpts{MemQ: h.cfg.MemQ, MaxBytesPerFile: h.cfg.MaxBytes, Verbose: h.cfg.Trace})
+	w2, err := NewWorld(old.Dir, WOpts{MemQ: h.cfg.MemQ, MaxBytesPerFile: h.cfg.MaxBytes, Verbose: h.cfg.Trace, Mod: h.cfg.mod()})
 	if err != nil {
 		h.bad("C05 C06 restart on the same data path failed", "%v", err)
 		// keep going on a throw-away world so that the caller can finish
